@@ -109,11 +109,12 @@ def lattices(tier):
     alphabet = [element(glyph(5, 0x41)), element(glyph(5, 0x41, 0xFF, 0x55)), element(glyph(5, 0x42), attr(i=1))]
     st = [tstring(s) for s in arg_lists(alphabet, 3)]
     L["st"] = (st, st)
-    co5 = (-1000000, -1, 0, 1, 7)
+    co5 = (-2147483648, -1000000, -1, 0, 1, 7, 2147483647)
     pt = ["%d %d" % t for t in itertools.product(co5, repeat=2)]
     L["pt"] = (pt, pt)
     L["ex"] = (pt, pt)
     re_p = ["%d %d %d %d" % t for t in itertools.product((-1, 0, 5), repeat=4)]
+    re_p += ["%d %d %d %d" % t for t in itertools.product((-2147483648, 2147483647), repeat=4)]
     re_t = ["%d %d %d %d" % t for t in itertools.product((0, 5), repeat=4)]
     L["re"] = (re_p, re_t)
     if thorough:
@@ -130,7 +131,7 @@ def lattices(tier):
     vk = [vkey(k, m, r, s) for k in (0x41, 0x80, 0xFF) for m in (0, 1, 8) for r in (-1, 0, 3) for s in seqs]
     vk_t = [vkey(k, m, r, s) for k in (0x41, 0x80) for m in (0, 1) for r in (-1, 3) for s in seqs[1:4]]
     L["vk"] = (vk, vk_t)
-    me = ["%d %d %d" % t for t in itertools.product((0, 3, 6), (-1, 0, 5), (-1, 0, 5))]
+    me = ["%d %d %d" % t for t in itertools.product((0, 3, 6), (-2147483648, -1, 0, 5, 2147483647), (-1, 0, 5, 2147483647))]
     L["me"] = (me, me)
     return L
 
@@ -173,7 +174,7 @@ def r_string(rng):
 
 
 def r_coord(rng):
-    return pick(rng, [-1000000, -1, 0, 1, 7, 999999], -1000000, 1000000)
+    return pick(rng, [-2147483648, -2147483647, -1000000, -1, 0, 1, 7, 999999, 2147483646, 2147483647], -1000000, 1000000)
 
 
 def r_cseq(rng):
